@@ -82,6 +82,7 @@ namespace pika::detail {
     bool stop_state::lock_and_request_stop() noexcept
     {
         std::uint64_t old_state = state_.load(std::memory_order_acquire);
+        PIKA_VERIF_POINT("st.rs.load", this, old_state >> 32, old_state & 0xffffffffu);
 
         if (stop_requested(old_state)) return false;
 
@@ -91,6 +92,7 @@ namespace pika::detail {
             std::memory_order_acquire, std::memory_order_relaxed))
         {
             old_state = expected;
+            PIKA_VERIF_POINT("st.rs.casfail", this, old_state >> 32, old_state & 0xffffffffu);
 
             for (std::size_t k = 0; is_locked(old_state); ++k)
             {
@@ -111,6 +113,7 @@ namespace pika::detail {
     bool stop_state::lock_if_not_stopped(stop_callback_base* cb) noexcept
     {
         std::uint64_t old_state = state_.load(std::memory_order_acquire);
+        PIKA_VERIF_POINT("st.add.load", this, old_state >> 32, old_state & 0xffffffffu);
 
         if (stop_requested(old_state))
         {
@@ -186,6 +189,7 @@ namespace pika::detail {
             std::lock_guard<stop_state> l(*this);
             if (cb->remove_this_callback()) { return; }
         }
+        PIKA_VERIF_POINT("st.rm.notlinked", this, 0, 0);
 
         // Callback has either already executed or is executing concurrently
         // on another thread.
@@ -252,6 +256,7 @@ namespace pika::detail {
 
             // Mark this item as removed from the list.
             cb->prev_ = nullptr;
+            PIKA_VERIF_POINT("st.rs.deq", this, 0, 0);
 
             // Don't hold lock while executing callback so we don't block other
             // threads from unregistering callbacks.
@@ -259,8 +264,10 @@ namespace pika::detail {
 
             bool is_removed = false;
             cb->is_removed_ = &is_removed;
+            PIKA_VERIF_POINT("st.rs.exec.before", this, 0, 0);
 
             cb->execute();
+            PIKA_VERIF_POINT("st.rs.exec.after", this, is_removed, 0);
 
             if (!is_removed)
             {
